@@ -507,6 +507,7 @@ class SyncWorld(World):
         def put(item, *a, **k):
             if item is not None and self._pkt_token(slot, item) == 'M%d' % n:
                 seen.append(1)
+                self.sent[slot] = n      # at the put itself: concurrent sends number apart
             return orig(item, *a, **k)
         q.put = put
         try:
@@ -516,8 +517,6 @@ class SyncWorld(World):
                 del q.put
             except AttributeError:
                 pass
-        if seen:
-            self.sent[slot] = n
 
     def _queue_items(self, so):
         return so.queue.items
